@@ -84,14 +84,17 @@ class Spelling:
         self._rev = {}
         for k in self.kinds:
             for i in range(0, MAX_IDX + 3):
-                self._rev.setdefault(self.concrete(k if i == 0 else f'{k}#{i}'), k if i == 0 else f'{k}#{i}')
+                a = k if i == 0 else f'{k}#{i}'
+                self._rev.setdefault(self.concrete(a), a)
+                if 1 <= i <= 3:      # a numbered name that is numbered again (remote files called "x (1).mp3")
+                    for j in range(1, MAX_IDX + 1):
+                        self._rev.setdefault(self.concrete(f'{a}#{j}'), f'{a}#{j}')
 
     def concrete(self, name: str) -> str:
-        base, _, idx = name.partition('#')
-        sp = self.kinds[base]
-        if not idx:
-            return sp
-        stem, ext = os.path.splitext(sp)
+        base, sep, idx = name.rpartition('#')
+        if not sep:
+            return self.kinds[name]
+        stem, ext = os.path.splitext(self.concrete(base))
         return f'{stem} ({idx}){ext}'
 
     def abstract(self, name: str) -> str:
@@ -101,7 +104,7 @@ class Spelling:
         return a if a is not None else '?' + name[:48]
 
     def remote(self, comps, style: int) -> str:
-        parts = [self.kinds[c] for c in comps]
+        parts = [self.concrete(c) for c in comps]
         out = ''
         for i, p in enumerate(parts):
             if i:
@@ -369,6 +372,17 @@ def through_first(stim, kind: str):
     for i, st in enumerate(stim):
         if st[0] == kind:
             return stim[:i + 1]
+    return None
+
+
+def through_nth(stim, kind: str, n: int):
+    """The schedule up to and including its n-th stimulus of `kind`."""
+    k = 0
+    for i, st in enumerate(stim):
+        if st[0] == kind:
+            k += 1
+            if k == n:
+                return stim[:i + 1]
     return None
 
 
@@ -821,6 +835,43 @@ def race_schedules(chk: Check, thorough: bool):
                                    schedules=nfull, prefixes_through_first_resume=npre)
     chk.log(f'resume graph: {len(gr.states)} states, {len(gr.edges)} edges, {len(rpaths)} cover paths, '
             f'{nfull} schedules + {npre} prefixes ending with the first resume')
+    # names that differ but collide through the duplicate strategy: N exists, the remote files are
+    # called N and "N (1)" (also below a kept directory); all start orders (design position; the run
+    # is also the model check)
+    gk, resk = tlc.dump_graph(SPEC, 'MC_collide2.cfg', parse_states='init', timeout=900, workers=1, coverage=True)
+    missing = [a for a in ('Choose', 'Wait', 'Touch', 'Open') if resk.coverage.get(a, (0, 0))[1] == 0]
+    if missing:
+        raise MachineryFailure(f'vacuity: actions never taken in MC_collide2.cfg: {missing}')
+    chk.add_model('Naming colliding invented names, 2 downloads (exhaustive, repaired design)', resk)
+    kpaths = tlc.path_cover(gk)
+    nfull = npre = 0
+    for p in kpaths:
+        case = case_of_state(gk.states[p[0][0]])
+        st = stimuli_of([e[1] for e in p])
+        if not st:
+            continue
+        pre = through_nth(st, 'start', 2)
+        if pre and (case, pre) not in scheds:
+            scheds[(case, pre)] = 'collide2-prefix'
+            npre += 1
+        if (case, st) not in scheds:
+            scheds[(case, st)] = 'collide2'
+            nfull += 1
+    chk.cov['collide_graph'] = dict(states=len(gk.states), edges=len(gk.edges), cover_paths=len(kpaths),
+                                    schedules=nfull, prefixes_through_second_start=npre)
+    chk.log(f'collide graph: {len(gk.states)} states, {len(gk.edges)} edges, {len(kpaths)} cover paths, '
+            f'{nfull} schedules + {npre} prefixes ending with the second arrival')
+    if thorough:
+        behs, sres = tlc.simulate_behaviours(SPEC, 'MC_collide3.cfg', num=300, depth=16, seed=chk.seed + 11,
+                                             timeout=900)
+        nk3 = 0
+        for b in behs:
+            case = case_of_state(b[0][1])
+            st = stimuli_of([lab for lab, _ in b[1:]])
+            if st and (case, st) not in scheds:
+                scheds[(case, st)] = 'collide3-sim'
+                nk3 += 1
+        chk.cov['collide_sim3'] = dict(behaviours=len(behs), new_schedules=nk3)
     if thorough:
         behs, sres = tlc.simulate_behaviours(SPEC, 'MC_race3_graph.cfg', num=400, depth=16, seed=chk.seed + 7,
                                              timeout=900)
@@ -859,8 +910,22 @@ def run_races(chk: Check, root: str, thorough: bool):
                     keys.append(k)
             chk.cov[src.split('-')[0].rstrip('23') + '_contexts_run'] = len(seen_ctx)
             continue
+        if src == 'collide2-prefix':
+            if thorough:
+                keys += ks
+                continue
+            # quick: for every initial state (remote names, chain, pre-existing files) and every
+            # start order the schedule in which the second download arrives earliest
+            best = {}
+            for k in ks:
+                ctx = (k[0], k[1][-1][1])
+                if ctx not in best or len(k[1]) < len(best[ctx][1]):
+                    best[ctx] = k
+            keys += list(best.values())
+            chk.cov['collide_start_orders_run'] = len(best)
+            continue
         cap = {'cover2': 1600 if thorough else 150, 'cancel3': 2500 if thorough else 40,
-               'resume2': 3000 if thorough else 40}.get(src, 1 << 30)
+               'resume2': 3000 if thorough else 40, 'collide2': 3000 if thorough else 30}.get(src, 1 << 30)
         if len(ks) > cap:
             # keep every distinct interleaving (stimulus sequence) at least once, then fill up
             chk.rng.shuffle(ks)
@@ -1092,6 +1157,16 @@ def selftest(chk: Check, path_traces, race_traces):
     bad.append([head2, a, dict(ev='created', rel=['n1']), dict(ev='pausing', d=1), dict(ev='finished', d=1),
                 dict(a, d=2, existed=False), dict(ev='requeued', d=1), dict(ev='resumed', d=1, rel=['n1'])])
     expect.append('reject')
+    # names that differ but collide through the duplicate strategy: n1 exists, the remote files are
+    # called n1 and "n1 (1)"; both given n1#1 before it exists -> marked; twin: the second is numbered
+    headk = dict(ev='case', chain='DN', files=[['n1']], dirs=[], remotes=[['x', 'n1'], ['y', 'n1#1']])
+    k1 = dict(ev='chosen', d=1, rel=['n1#1'], existed=False, realInside=True)
+    bad.append([headk, k1, dict(k1, d=2), dict(ev='created', rel=['n1#1']), dict(ev='finished', d=1),
+                dict(ev='finished', d=2)])
+    expect.append('mark')
+    bad.append([headk, k1, dict(ev='created', rel=['n1#1']), dict(k1, d=2, rel=['n1#1#1']),
+                dict(ev='created', rel=['n1#1#1']), dict(ev='finished', d=1), dict(ev='finished', d=2)])
+    expect.append('clean')
     v = tlc.validate_traces(TRACE, 'Trace.cfg', [_strip(t) for t in bad], max_diag=0, workers=WORKERS, timeout=600)
     wrong = []
     for i, e in enumerate(expect):
@@ -1175,6 +1250,11 @@ def run(chk: Check, args):
     chk.cov['binding_selftest']['model_keeping_unmaterialised_path_violates'] = teeth4
     if 'DistinctActivePaths' not in teeth4:
         raise MachineryFailure(f'keep-unmaterialised-path design model did not violate DistinctActivePaths: {teeth4}')
+    rc5 = tlc.run_tlc(SPEC, 'MC_collide2_code.cfg', timeout=900)
+    teeth5 = sorted({i.name for i in rc5.issues if i.kind == 'invariant'})
+    chk.cov['binding_selftest']['model_with_lock_per_remote_name_violates'] = teeth5
+    if 'DistinctActivePaths' not in teeth5:
+        raise MachineryFailure(f'lock-per-name design model did not violate DistinctActivePaths: {teeth5}')
     chk.cov['binding_selftest']['model_without_dot_sanitising_violates'] = teeth1
     chk.cov['binding_selftest']['model_with_check_then_create_violates'] = teeth2
     if not (set(teeth1) & {'Inside', 'RegularName'}) or 'DistinctActivePaths' not in teeth2:
@@ -1225,6 +1305,8 @@ def run(chk: Check, args):
         "freshness ('does not exist yet') and distinctness are promised only for chains in which the duplicate strategy is "
         'applied last (DN, DKN, KDN): DefaultNamingStrategy alone returns an existing name by design',
         'chains without DefaultNamingStrategy never produce a file name and are outside the domain',
+        'race part: equally named remote files, and remote names that differ but collide through the duplicate strategy '
+        '(N present on disk, remote files called N and "N (1)", also below a kept directory)',
         'a path for which the code raises instead of choosing is a refusal and acceptable when nothing was created',
         'part A changes settings.shares.download of one SharesManager from case to case: the configured directory is '
         'the one set at the time of the choice',
